@@ -19,10 +19,12 @@ class StubMeasure:
     used by the layout): returns boxes from a list of (w, h) sizes indexed by
     call position, and records the measured TeX snippets."""
 
-    def __init__(self, sizes=None, swap=False, default=(10.0, 10.0)):
+    def __init__(self, sizes=None, swap=False, default=(10.0, 10.0), min_leaf=0.0):
         self.sizes = sizes or []
         self.swap = swap
         self.default = default
+        # a real TeX box of an extant gene contains the gene's circle: never smaller than its diameter
+        self.min_leaf = min_leaf
         self.texts = []
 
     def __call__(self, texts, preamble=""):
@@ -30,6 +32,8 @@ class StubMeasure:
         for i, text in enumerate(texts):
             self.texts.append(text)
             w, h = self.sizes[i % len(self.sizes)] if self.sizes else self.default
+            if "extant gene=" in text:
+                w, h = max(w, self.min_leaf), max(h, self.min_leaf)
             if self.swap:
                 w, h = h, w
             out.append(tex.MeasureBox(w, h, 0))
@@ -37,9 +41,9 @@ class StubMeasure:
 
 
 @contextlib.contextmanager
-def stub_tex(sizes=None, swap=False, default=(10.0, 10.0)):
+def stub_tex(sizes=None, swap=False, default=(10.0, 10.0), min_leaf=0.0):
     old = tex.measure
-    stub = StubMeasure(sizes, swap, default)
+    stub = StubMeasure(sizes, swap, default, min_leaf)
     tex.measure = stub
     try:
         yield stub
